@@ -11,6 +11,14 @@ H_NOTE = ("Single client, no faults: these properties have no schedule, clock or
 claimed = {
   "C04": dict(tier="S", text="Seeded search over schedules of 2-4 simulated goroutines running the real sync2.Map at the granularity of its atomic and mutex operations, plus long single-goroutine sequences; every history checked for linearizability per key with porcupine, Range obligations included; a share of runs under the race detector inside the simulation.", ref="3 (C04)",
               technique="deterministic simulation: seeded cooperative scheduler over the real code, linearizability oracle (porcupine), race detector in-sim"),
+  "C05": dict(tier="S", text="Seeded search over schedules of 2-8 simulated goroutines calling Add/Remove/Has/AddSet/RemoveSet/Len on the real sync2.Set over the real sync2.Map; per-value linearizability with porcupine (successful Adds and Removes alternate consistently with real time), exact count search for composite calls, conservation of successes against final membership; a share of runs under the race detector.", ref="3 (C05)",
+              technique="deterministic simulation: seeded scheduler over the real code, per-value linearizability (porcupine) + conservation oracle, race detector in-sim"),
+  "C09": dict(tier="S", text="Seeded search over schedules of 2-4 simulated goroutines locking, try-locking, read-locking and unlocking 1-3 keys of KeyedMutex/KeyedRWMutex at the granularity of the underlying map's atomic steps, first-use collisions included; occupancy invariant, Try* contract from recorded intervals, and cross-key independence decided by injecting a holder that stalls forever and requiring every task that needs other keys to finish.", ref="3 (C09)",
+              technique="deterministic simulation: seeded scheduler, stalled-holder fault injection, occupancy and blocked-set oracles, race detector witness"),
+  "C17": dict(tier="S", text="Seeded search over arrival orders and interleavings of 2-6 callers of Once1/2/3.Do with distinct functions that contain scheduling points; exactly-one-invocation, shared results and completion-before-return (plain effect variable, also witnessed by the race detector).", ref="3 (C17)",
+              technique="deterministic simulation: seeded scheduler over the wrapper with an interleavable Once, exactly-once oracle, race detector in-sim"),
+  "C18": dict(tier="S", text="Seeded search over interleavings of Load/Store/Swap/CompareAndSwap on AtomicValue[T] checked as an atomic register with porcupine, and of Get/use/Put on Pool[T] under a sync.Pool stub whose misses, dropped Puts and arbitrary choice are injected faults, with an ownership ledger and owner-field witness; a share of runs under the race detector (which found and now guards the Pool.Get race).", ref="3 (C18)",
+              technique="deterministic simulation: seeded scheduler, sync.Pool fault stub, register linearizability (porcupine), ownership oracle, race detector in-sim"),
 }
 
 not_applicable = {
